@@ -217,11 +217,11 @@ def cluster_leg(c, sc):
 
 
 def many_leg(c, sc):
-    """'many instances per service': 3 x 4 000 silent HTTP instances (more than the actor expires in one sweep) + beating,
+    """'many instances per service': 4 x 3 500 silent HTTP instances (three services already hold more than the actor expires in one sweep) + beating,
     connection-owned and persistent ones on the real NamingActor in real time; requirements: ExpiryMany.tla (TLC)"""
-    obs = [r for r in vlib.harness(["record", "registry-many", "--per", 4000], timeout=300) if r.get("kind") == "many"]
-    if len(obs) != 6:
-        raise ToolError("many-instances leg: %d observations instead of 6" % len(obs))
+    obs = [r for r in vlib.harness(["record", "registry-many", "--per", 3500], timeout=300) if r.get("kind") == "many"]
+    if len(obs) != 8:
+        raise ToolError("many-instances leg: %d observations instead of 8" % len(obs))
     if any(o["registering_took_ms"] >= o["health_timeout_ms"] for o in obs):
         raise ToolError("many-instances leg: registering took longer than the health time-out (%s ms): nothing can be said" % obs[0]["registering_took_ms"])
     of = vlib.write_ndjson(os.path.join(sc, "many_obs.ndjson"), obs)
@@ -236,7 +236,7 @@ def many_leg(c, sc):
     for req, i in [(m.group(1), int(m.group(2))) for m in re.finditer(r'<<"REQ-FAILED", "(\w+)", (\d+)>>', r.stdout)]:
         o = obs[i - 1]
         c.violation("C13:%s@many_instances:%s" % (req, o["phase"]),
-                    "real NamingActor with 3 services x %d silent HTTP instances (+ 5 beating, 1 connection-owned, 1 persistent each; health time-out "
+                    "real NamingActor with 4 services x %d silent HTTP instances (+ 5 beating, 1 connection-owned, 1 persistent each; health time-out "
                     "%d ms, instance time-out %d ms): %s after %d sweeps at %d ms, service %s counts %s" %
                     (o["registered"], o["health_timeout_ms"], o["instance_timeout_ms"], o["phase"], o["sweeps"], o["at_ms"], o["service"], json.dumps(o["n"])),
                     {"observation": o, "all": obs})
